@@ -99,7 +99,7 @@ def classify_fill(c, solvent, value, base):
         return 'infeasible', 'non_positive', 0.0
     cur = R.measure(c.contents, base)
     pb = R.per(solvent, base)
-    rq = H1.request_quantum(base, len(c.contents)) + K * H1.storage_noise_in(c.contents, base)
+    rq = H1.request_quantum(base, c.contents) + K * H1.storage_noise_in(c.contents, base)
     need = value - cur
     if need < -(1e-6 * cur + K * rq):
         return 'infeasible', 'below_current', 0.0
@@ -154,7 +154,7 @@ def check_fill(c, solvent, quantity, result, exc, where):
     # ---- postconditions (C11)
     M.count('FILL')
     total = R.measure(result.contents, base)
-    tol = K * (H1.storage_noise_in(result.contents, base) + H1.request_quantum(base, len(result.contents))) + 1e-9 * abs(value)
+    tol = K * (H1.storage_noise_in(result.contents, base) + H1.request_quantum(base, result.contents)) + 1e-9 * abs(value)
     if not M.ratio('FILL', total, value, tol):
         M.violate(['C11'], 'FILL', f'C11:fill_total_ne_target:{base}' + (':enzymes_present' if has_enz else ''),
                   {'target': value, 'unit': base, 'result_total': total, 'tol': tol, 'quantity': quantity,
